@@ -71,6 +71,7 @@ inv = Function('inv', Node, B)               # node._invert_ (constant during ev
 Sub = Function('Sub', Node, ArrNB)           # Sub(n)[d]  <=> d is n or a descendant of n
 SubIds = Function('SubIds', Node, ArrIB)     # ids of those nodes
 cond_pos = Function('cond_pos', Node, B)     # node stands in condition position (truth matters)
+selects_conclusions = Function('selects_conclusions', Node, B)   # node._selects_conclusions_ (class constant: the node is a ConclusionSelector)
 is_value = Function('is_value', Node, B)     # node binds its own id to a value (CanBehaveLikeAVariable)
 attr_name = Function('attr_name', Node, Str)
 index_key = Function('index_key', Node, Val)
